@@ -94,6 +94,10 @@ def handle (s : DState) : List String → DState × String
     match t.toNat?, delta.toNat? with
     | some t, some d => feed s (.jump t d)
     | _, _ => (s, "bad-op")
+  | ["late", t, delta] =>
+    match t.toNat?, delta.toNat? with
+    | some t, some d => feed s (.late t d)
+    | _, _ => (s, "bad-op")
   | ["probe", t, blk, out] =>
     match t.toNat?, blk.toNat?, parseBool out with
     | some t, some b, some o => feed s (.probe t b o)
@@ -107,7 +111,7 @@ def handle (s : DState) : List String → DState × String
     | none => (s, "bad-op")
   | ["group", read, alarms, blocks] =>
     match read.toNat?, parseList parseAlarm alarms, parseBlocks blocks with
-    | some r, some al, some bl => (s, if groupLegal s.lam al r bl then "ok" else "illegal")
+    | some r, some al, some bl => (s, if groupLegal (s.lam + lateSlack s.st r) al r bl then "ok" else "illegal")
     | _, _, _ => (s, "bad-op")
   | ["targets", alarms] =>
     match parseList parseAlarm alarms with
